@@ -135,16 +135,23 @@ def make_instance(cls):
         return cls.__new__(cls)
 
 
-def run_config(col, kind, make_driver, fam_name, regs, order, exacts, instances, contract, label):
-    """one registration history on a fresh registry"""
+def run_config(col, kind, make_driver, fam_name, regs, order, exacts, instances, contract, label, partial_rng=None):
+    """one registration history on a fresh registry.  With partial_rng, each register() call names only a random
+    subset of the operations; the others get the autodiscovered handler of THAT type (possibly False)"""
     driver = make_driver()
     tagger = Tagger()
     registered = []
     fuzzy = set()
     base_known = driver['default_types']
     steps = []
+    named = set()
     for typ, exact in zip(order, exacts):
         kw = tagger.handlers(typ)
+        if partial_rng is not None:
+            keep = [op for op in OPS if partial_rng.random() < 0.5] or [partial_rng.choice(OPS)]
+            kw = {op: h for op, h in kw.items() if op in keep}
+        for op in kw:
+            named.add((typ, op))
         kw['exact'] = exact
         r = call(driver['register'], typ, **kw)
         if not r.ok:
@@ -158,7 +165,9 @@ def run_config(col, kind, make_driver, fam_name, regs, order, exacts, instances,
         for inst in instances:
             cls = type(inst)
             for op in OPS:
-                acc = nearest_types(cls, inst, registered, fuzzy)
+                # ('keys' has no autodiscovery: a type has an entry for it only when a keys= handler was named)
+                reg_op = [t for t in registered if op != 'keys' or (t, op) in named]
+                acc = nearest_types(cls, inst, reg_op, fuzzy)
                 col.count('api_lookups')
                 seen = observe(driver['glom'], inst, op, tagger)
                 decided_by_real_type = bool(acc) and all(t is cls or t in cls.__mro__ for t in acc)
@@ -166,6 +175,12 @@ def run_config(col, kind, make_driver, fam_name, regs, order, exacts, instances,
                     # only virtual / duck types of the family apply: they tie with the default duck types
                     # (_ObjStyleKeys, _AbstractIterable); the contract, which sees all registrations, judges
                     ok, want = True, ''
+                elif acc and not all((t, op) in named for t in acc):
+                    # the nearest type was registered without naming this operation: its own autodiscovered handler
+                    # applies - in any case not the tagged handler of ANOTHER (less specific) family type
+                    others = [t.__name__ for t in registered if t not in acc and (t, op) in named]
+                    ok = seen not in others
+                    want = 'the autodiscovered handler of %s (not a handler of %s)' % ('/'.join(t.__name__ for t in acc), others)
                 elif acc:
                     ok = seen in [t.__name__ for t in acc]
                     want = '/'.join(t.__name__ for t in acc)
@@ -367,6 +382,10 @@ def run(ctx):
                     label = 'Glommer()' if default_types else 'Glommer(register_default_types=False)'
                     col.case((name, tuple(t.__name__ for t in order), exacts, default_types), len(order) >= 2)
                     run_config(col, 'glommer', glommer_driver(default_types), name, registrable, order, exacts, instances, contract, label)
+                    if rng.random() < 0.5:
+                        col.case((name, tuple(t.__name__ for t in order), exacts, default_types, 'partial-ops'), len(order) >= 2)
+                        run_config(col, 'glommer', glommer_driver(default_types), name, registrable, order, exacts, instances, contract,
+                                   label + ' (register() naming a subset of the operations)', partial_rng=rng)
             if col.want_sample(name):
                 col.sample({'family': name, 'classes': [c.__name__ + str([b.__name__ for b in c.__bases__]) for c in classes],
                             'registrable': [t.__name__ for t in registrable], 'configurations_run': len(cfgs) * 2}, name)
